@@ -83,3 +83,15 @@ Print Assumptions C09_ransac_best.
 Example C09_nonvacuous :
   NE 3 [((0, 1), 1); ((1, 6), 1); ((2, 17), 1)] [1; 2; 3].
 Proof. apply exact_poly_solves. intros s [<- | [<- | [<- | []]]]; unfold Y, X, P; cbn; lra. Qed.
+
+(* the line through two samples (Line1::try_from_points) passes through both and does not depend on which is given first; it is
+   refused exactly when the abscissae are within 1e-12 of each other *)
+Theorem C09_two_point_line : forall x0 y0 x1 y1 m b : R,
+  @line_two_points RNum x0 y0 x1 y1 = Ok (m, b) ->
+  m * x0 + b = y0 /\ m * x1 + b = y1 /\ @line_two_points RNum x1 y1 x0 y0 = Ok (m, b).
+Proof. exact line_two_points_through. Qed.
+Print Assumptions C09_two_point_line.
+Theorem C09_two_point_refused : forall x0 y0 x1 y1 : R,
+  @line_two_points RNum x0 y0 x1 y1 = Err <-> Rabs (x1 - x0) < Rlit 1 (-12).
+Proof. exact line_two_points_refused. Qed.
+Print Assumptions C09_two_point_refused.
